@@ -33,6 +33,7 @@ type scenario struct {
 	B1      string       // behaviour per actionable packet on connection 0: A ack, W withhold, D drop
 	B2      string       // behaviour on connection 1 (resend phase)
 	Clean2  bool         // connection 1 uses a clean session
+	OwnPub  bool         // the subscriber also publishes QoS 2 messages under the packet ids 1..window+2
 	Fault   *connFault
 }
 
@@ -41,7 +42,11 @@ func (s scenario) String() string {
 	if s.Fault != nil {
 		f = fmt.Sprintf("conn%d:%v", s.Fault.Conn, s.Fault.F)
 	}
-	return fmt.Sprintf("window=%d online=%v offline=%v b1=%q b2=%q clean2=%t | %s", s.Window, s.QoS, s.Offline, s.B1, s.B2, s.Clean2, f)
+	own := ""
+	if s.OwnPub {
+		own = " own-publishes"
+	}
+	return fmt.Sprintf("window=%d online=%v offline=%v b1=%q b2=%q clean2=%t%s | %s", s.Window, s.QoS, s.Offline, s.B1, s.B2, s.Clean2, own, f)
 }
 
 type outEntry struct {
@@ -259,6 +264,20 @@ func run(r *h.Run, sc scenario) result {
 	}
 	// workload shaping only (never a verdict): give the dequeuer time to fill the window
 	settle(b)
+	if sc.OwnPub {
+		// the subscriber publishes on the same connection under packet ids the
+		// broker is using towards it: the two directions have separate id spaces
+		for k := 1; k <= sc.Window+2 && !s0.EOF(); k++ {
+			_ = s0.Send(&packet.Publish{ID: packet.ID(k), Message: packet.Message{Topic: "own/x", QOS: 2, Payload: []byte(fmt.Sprintf("own-%d", k))}})
+			if _, err := bh.AwaitAck(s0, packet.PUBREC, packet.ID(k)); err != nil {
+				break
+			}
+			_ = s0.Send(&packet.Pubrel{ID: packet.ID(k)})
+			if _, err := bh.AwaitAck(s0, packet.PUBCOMP, packet.ID(k)); err != nil {
+				break
+			}
+		}
+	}
 	// connection loss
 	s0.Close()
 	if !b.WaitClosed(s0.Name, bh.Watchdog) {
@@ -657,7 +676,7 @@ func (m *smodel) checkDup() {
 
 func TestCheck(t *testing.T) {
 	r := h.New("C08", "fault_enumeration")
-	r.Rule("scenarios: inflight window 1-3, 1..window+2 online messages of mixed QoS 1/2, 0-2 offline messages, subscriber behaviour vectors over {ack, withhold, drop connection} per received PUBLISH/PUBREL on the first and on the resumed connection, second connection unclean or clean; every base scenario is first run without faults to count the packets on each subscriber connection and then re-run with every single fault position (connection c, k-th broker-side Send/Receive, before/after) — all positions for a deterministic third of the base scenarios in quick, for all in thorough. Non-trivial = runs with >= 1 unacknowledged QoS>0 packet at the moment of a connection loss; distinct by (scenario, fault)")
+	r.Rule("scenarios: inflight window 1-3, 1..window+2 online messages of mixed QoS 1/2, 0-2 offline messages, subscriber behaviour vectors over {ack, withhold, drop connection} per received PUBLISH/PUBREL on the first and on the resumed connection, second connection unclean or clean, a quarter of the scenarios with the subscriber itself publishing QoS 2 messages under the packet ids in flight towards it; every base scenario is first run without faults to count the packets on each subscriber connection and then re-run with every single fault position (connection c, k-th broker-side Send/Receive, before/after) — all positions for a deterministic third of the base scenarios in quick, for all in thorough. Non-trivial = runs with >= 1 unacknowledged QoS>0 packet at the moment of a connection loss; distinct by (scenario, fault)")
 	r.Assume("the subscriber-side model of sent-and-unacknowledged packets is driven by broker-side sends and by the broker's own Log(PacketReceived) report")
 	r.Assume("workloads stay inside SessionQueueSize (overflow behaviour is documented as out of contract)")
 	rng := r.Rand("c08")
@@ -668,7 +687,7 @@ func TestCheck(t *testing.T) {
 	for i := 0; i < nbase; i++ {
 		w := 1 + i%3
 		n := 1 + rng.Intn(w+2)
-		sc := scenario{Window: w, B1: b1s[rng.Intn(len(b1s))], B2: b2s[rng.Intn(len(b2s))], Clean2: i%9 == 8}
+		sc := scenario{Window: w, B1: b1s[rng.Intn(len(b1s))], B2: b2s[rng.Intn(len(b2s))], Clean2: i%9 == 8, OwnPub: i%4 == 1}
 		for k := 0; k < n; k++ {
 			sc.QoS = append(sc.QoS, packet.QOS(1+rng.Intn(2)))
 		}
